@@ -3,6 +3,8 @@ import numpy as np
 
 from vmon import gen, instr
 
+from vmon.scale import S
+
 ID = 'C11'
 RULE = ('cases = random steering vectors and Hermitian positive definite PSDs (condition number up to 1e6, D 2..8, F 1..32, K 1..3): '
         'get_mvdr_vector (distortionless + no distortionless competitor has less noise power, single bins and stacks), get_lcmv_vector '
@@ -16,7 +18,7 @@ ASSUMPTIONS = ['numpy.linalg.solve / inv on the generated well-posed problems ar
 
 def plan(tier, seed):
     rng = np.random.default_rng([seed, 111])
-    n = 120 if tier == 'quick' else 1200
+    n = S(tier, 120, 1200)
     cases = []
     i = 0
     for lane in ('mvdr', 'lcmv', 'souden', 'wmwf', 'ref'):
@@ -206,6 +208,15 @@ def run_ref(case, R):
     if gap < 1e-9:
         R.undecided('C11.refchannel', 'near-tie between reference channels')
         return
+    # joint positive scaling of both PSDs must not change the choice (scales down to 1e-20: the criterion's noise floor is `tiny`)
+    if which == 'wmwf':
+        cs = float(10 ** rng.uniform(-20, 20))
+        try:
+            w_s = get_wmwf_vector(Px * cs, Pn * cs, distortion_weight=mu)
+            dvs = float(np.abs(w_s - w).max() / np.abs(w).max())
+            R.check('C11.refchannel', dvs <= 1e-9, 'ref/wmwf/joint-scale-changes-choice', f'WMWF with automatic reference changes by {dvs:.3e} under joint scaling of both PSDs by {cs:.1e}', scale=cs, **info)
+        except Exception as e:
+            R.fail('C11.refchannel', 'ref/raised/wmwf-scaled', f'{type(e).__name__}: {str(e)[:100]}', **info)
     if chosen is not None:
         R.check('C11.refchannel', int(chosen) == best, f'ref/{which}/not-argmax', f'automatic reference channel {chosen} does not maximise the output SNR criterion (best {best})', snr=snr, **info)
     R.check('C11.refchannel', np.allclose(w, cand[best], rtol=1e-12, atol=0), f'ref/{which}/vector', 'vector returned with automatic reference is not the vector of the criterion-maximising channel', **info)
